@@ -324,6 +324,9 @@ func c03World(t *testing.T, r *simcore.Run) any {
 		// the four timestamps belong to exchange e
 		if e.q.TxStampFault != "" {
 			r.Probe("client-kernel-tx-stamp-missing")
+			if ts[0].Before(w.cli.Clock.At(T0).Add(-eps)) || ts[0].After(ts[3]) {
+				r.Fail("C03", "membership/t0", "software transmit timestamp %v of an exchange sent at %v and answered at %v (client clock; t1 %v t2 %v, T3 %v); %s", ts[0], w.cli.Clock.At(T0), ts[3], ts[1], ts[2], w.cli.Clock.At(T3), desc)
+			}
 			return
 		}
 		if d := absDur(ts[0].Sub(w.cli.Clock.At(T0))); d > eps {
